@@ -588,6 +588,18 @@ func (a *Analyzer) external0(fr *frame, site ssa.Instruction, name string, sig *
 		}
 		c := s.Len
 		return one(&Slice{Base: &Base{ID: a.id(), Desc: "Clone(" + s.Base.Desc + ")", Fresh: true, From: s, Op: "clone"}, Off: Const(0), Len: s.Len, Cap: &c})
+	case "path/filepath.Base", "path.Base":
+		// the last element of the path: a string of unknown content whose provenance is kept (taint rules)
+		if s := argSlice(0); s != nil {
+			n := a.freshLen("len(Base(" + s.Base.Desc + "))")
+			st.AssumeGE(AtomLin(n).AddC(-1)) // never empty
+			return one(&Slice{Base: &Base{ID: a.id(), Desc: "Base(" + s.Base.Desc + ")", Fresh: true, From: s, Op: "call:" + base}, Off: Const(0), Len: AtomLin(n), IsStr: true})
+		}
+	case "path/filepath.Join", "path.Join":
+		if s := argSlice(0); s != nil && s.Base.Elems != nil {
+			n := a.freshLen("len(Join)")
+			return one(&Slice{Base: &Base{ID: a.id(), Desc: "Join(…)", Fresh: true, Op: "call:" + base, Elems: s.Base.Elems}, Off: Const(0), Len: AtomLin(n), IsStr: true})
+		}
 	case "strings.Repeat", "bytes.Repeat":
 		if n, ok := args[1].(Int); ok {
 			okk := st.Cons.EntailsGE(n.L)
